@@ -171,6 +171,26 @@ def relocate_stream(rng, pid, kinds=ALL_KINDS):
     return out
 
 
+def closure_pull_stream(rng, pid):
+    """the function given to `for_each` / `enumerate_for_each` itself pulls one more element from the same iterator after each
+    call (and processes it): re-entrancy from user code that runs *outside* the turn. Implementation only"""
+    out = []
+    i = 0
+    for kind in ALL_KINDS:
+        for L in (0, 3, 6, 9):
+            for progs in ([["foreach 1 pull"]], [["foreach 2 pull"]], [["enumforeach 1 pull"]], [["enumforeach 3 pull"], ["foreach 1"]],
+                          [["foreach 2 pull"], ["enumforeach 2 pull"], ["next", "chunk 2 all"]]):
+                c = make_source(rng, "%s-cpl%d" % (pid, i), kind, L, hint=rng.choice(["exact", "inexact"]))
+                c.threads = [list(t) for t in progs]
+                if len(progs) > 1:
+                    c.sched = rand_sched(rng, len(progs), 20)
+                c.owner = rng.choice(["drop", "intoseq all"])
+                c.tags = {"implonly", "nomodel"}
+                out.append(c)
+                i += 1
+    return out
+
+
 def many_threads_stream(rng, pid, n=24):
     """8 to 12 threads on one iterator (every other stream has at most 4): pulls of every form, loops, a skip now and then"""
     out = []
@@ -1021,7 +1041,7 @@ def stream_for0(pid, tier, seed):
                             c.sched = rand_sched(rng, 2, 14)
                             cases.append(c)
                             i += 1
-        cases += [c for c in inpanic_stream(rng, pid) if "P" not in c.script] + many_threads_stream(rng, pid)
+        cases += [c for c in inpanic_stream(rng, pid) if "P" not in c.script] + many_threads_stream(rng, pid) + closure_pull_stream(rng, pid)
         # the function panics at every position of a one-by-one / chunked loop over a known-size source
         cases += [c for c in closure_panic_stream(rng, pid, kinds=("slice", "vec", "range", "array")) if c.threads[0][0].split()[1] in ("1", "2") and c.src_len() <= 5]
         # zero-sized elements through every loop (chunk size 1 and > 1)
